@@ -28,7 +28,11 @@ RULE = ('socket.socketpair() gives a SocketPort and a raw peer. Hypothesis draws
         'connect() clients each sending a list, some disconnecting right after a burst: every message is returned '
         '(multiset, per-client order) and no call exhausts the sleep budget (wall-clock deadline expiry = inconclusive). '
         'Addresses: all ports 1..65535 x a host grammar without ":", both directions. Non-trivial = a cut strictly inside '
-        'an encoding with >= 1 complete message before it; distinct by (stream, cut, segmentation).')
+        'an encoding with >= 1 complete message before it; distinct by (stream, cut, segmentation).'
+        ' Later additions: every socket case under a thread watchdog; 70 000-message sessions (segmented and as'
+        ' one backlog); after a half-close the port must release the connection; server close seen by every'
+        ' connected client; a client sending one out-of-band byte; close() from a second thread while a reader'
+        ' waits; broken pipe inside send().')
 ASSUMPTIONS = ['AF_UNIX socketpair delivers synchronously, so segmentation and ordering are owned by the harness',
                'the TCP part asserts only timing-independent facts; a 5 s deadline expiry is reported as inconclusive']
 
